@@ -10,7 +10,7 @@ def classify(t, f):
     a0 = (t.get('arg_tys') or [''])[0]
     if c in ('futures::Sink::poll_ready', 'futures::Sink::start_send', 'futures::Sink::poll_flush', 'futures::Sink::poll_close') and 'Fuse<' in st:
         return ('W', c.split('::')[-1])
-    if c == 'futures::Stream::poll_next' and st.startswith('futures::stream::Fuse<'):
+    if c in ('futures::Stream::poll_next', 'futures::StreamExt::poll_next_unpin') and (st.startswith('futures::stream::Fuse<') or st.startswith('std::pin::Pin<&mut futures::stream::Fuse<')):
         return ('R', 'poll_next')
     if c == 'tokio::sync::mpsc::Receiver::poll_recv':
         if 'DispatchRequest' in a0:
